@@ -27,18 +27,21 @@ LexerMayBlock(ev) == ev.ntok > LookAhead + Cap
 \* ... and it must be, when even a parser that consumed all the grammar allows leaves more than that
 LexerMustBlock(ev) == ev.ntok > Run(Seen(ev)).n + LookAhead + Cap
 
-Verdict ==
-    IF e.ev = "Crash" THEN "process-killed"
-    ELSE IF e.outcome = "Panic" THEN "panic"
-    ELSE IF e.outcome = "Timeout" THEN "no-return-within-watchdog"
-    ELSE IF e.outcome \notin Outcomes THEN "neither-table-nor-error"
-    ELSE IF e.g_after # e.g_before
-         THEN (IF e.lex_only /\ LexerMayBlock(e) THEN "lexer-goroutine-after-early-return" ELSE "goroutine-left-behind")
-    ELSE "ok"
+\* every way in which the run contradicts the property (a panicking run may also leave a goroutine)
+Verdicts ==
+    (IF e.ev = "Crash" THEN {"process-killed"}
+     ELSE IF e.outcome = "Panic" THEN {"panic"}
+     ELSE IF e.outcome = "Timeout" THEN {"no-return-within-watchdog"}
+     ELSE IF e.outcome \notin Outcomes THEN {"neither-table-nor-error"}
+     ELSE {})
+    \cup
+    (IF e.ev = "Run" /\ e.outcome # "Timeout" /\ e.g_after # e.g_before
+     THEN (IF e.lex_only /\ LexerMayBlock(e) THEN {"lexer-goroutine-after-early-return"} ELSE {"goroutine-left-behind"})
+     ELSE {})
 
 TraceInit == l = 1
 TraceNext == /\ l <= Len(Trace)
-             /\ LET v == Verdict IN v = "ok" \/ (v # "ok" /\ PrintT(<<"REJECT", l, "C08", v>>))
+             /\ \A v \in Verdicts : PrintT(<<"REJECT", l, "C08", v>>)
              /\ (e.ev = "Run" /\ e.outcome \in Outcomes /\ e.g_after = e.g_before /\ e.stage = "parse" /\ LexerMustBlock(e))
                    => PrintT(<<"DRIFT", l, "C08", "layer-B-predicts-blocked-lexer-none-observed">>)
              /\ l' = l + 1
